@@ -157,7 +157,6 @@ func c15One(c *mc.Ctx, k c15Case) {
 				m = x
 			default:
 				m = thrift.NewApplicationException(3, c15Val(k.Lens[0], 0))
-				vals = nil // the exception ignores the direct writer
 			}
 			total = m.BLength()
 			cb := make([]byte, total)
@@ -194,17 +193,11 @@ func c15One(c *mc.Ctx, k c15Case) {
 		if rw != nil {
 			recs = rw.recs
 		}
-		// direct writes happen iff a writer is attached and the value is at least the threshold long, in order
-		var wantDirect []string
-		if k.W {
-			for _, v := range vals {
-				if len(v) >= nocopyThreshold {
-					wantDirect = append(wantDirect, v)
-				}
-			}
-		}
-		if len(recs) != len(wantDirect) {
-			bad("threshold", "%d direct writes, want %d (values of at least %d bytes, writer attached)", len(recs), len(wantDirect), nocopyThreshold)
+		// Which values go through the direct writer is the library's choice (the threshold is an implementation constant
+		// and the pieces may or may not alias the caller's memory): the property constrains only the resulting stream.
+		// Without a writer attached there is nobody to write directly to.
+		if !k.W && len(recs) != 0 {
+			bad("direct-write-without-writer", "%d direct writes although no direct writer is attached", len(recs))
 			return
 		}
 		sum := 0
@@ -214,11 +207,8 @@ func c15One(c *mc.Ctx, k c15Case) {
 				bad("remain-cap", "direct write #%d: remaining capacity %d is smaller than the %d bytes written directly", i, r.remainCap, len(r.b))
 				return
 			}
-			if len(r.b) != len(wantDirect[i]) || (len(r.b) > 0 && unsafe.SliceData(r.b) != unsafe.StringData(wantDirect[i])) {
-				bad("not-aliased", "direct write #%d does not alias the caller's value (it was copied or is another value)", i)
-				return
-			}
 		}
+		c.Count(fmt.Sprintf("cases-with-%d-direct-writes", minInt(len(recs), 3)), 1)
 		if n+sum != total {
 			bad("length", "returned %d + %d bytes written directly != advertised length %d", n, sum, total)
 			return
@@ -414,4 +404,11 @@ func (p *endWriter) Bytes() []byte {
 		return nil
 	}
 	return append(ret, p.data[start:start+left]...)
+}
+
+func minInt(a, b int) int {
+	if a < b {
+		return a
+	}
+	return b
 }
